@@ -448,7 +448,6 @@ theorem translated_read_eq (cont img : Bytes) (table : List Trans) (sc si : IStr
 
 /-- the same for the header-record reads (`seekg(translate(pos)); read`) on a good stream -/
 theorem translated_hdrRead_eq (cont img : Bytes) (table : List Trans) (sc si : IStream)
-    (hne : table ≠ [])
     (hsc : sc.data = cont) (hsi : si.data = img) (hce : sc.eof = false) (hcf : sc.fail = false)
     (hie : si.eof = false) (hif : si.fail = false) (k n : Nat)
     (hrep : RangeRep cont table img k n) :
